@@ -705,7 +705,8 @@ class Extractor:
                 return [(st, Lines(recv.t, list(a.items)))]
             if isinstance(a, SObj):
                 return [(st, Lines(recv.t, [MapSub(a.expr, m, '_x', Hole(ast.Name(id='_x', ctx=ast.Load()), m), 0, 0)]))]
-            raise AnalysisError('templates: join over %r in %s' % (a, m.qname))
+            # a join over something the extractor does not model: an opaque string, classified by the flow analysis
+            return [(st, ('sym', norm(e)))]
         if isinstance(recv, PyList) and name in ('append', 'extend', 'insert'):
             if name == 'append':
                 recv.items.append(args[0])
@@ -731,7 +732,7 @@ class Extractor:
             ind = st.fields.get('indentation', SInt('indentation', 0)).off
             loop = st.fields.get('loop_level', SInt('loop_level', 0)).off
             return [(st, Sub(recv.expr, m, ind, loop))]
-        if isinstance(recv, SObj):
+        if isinstance(recv, SObj) or (isinstance(recv, tuple) and recv and recv[0] in ('sym', 'str', 'global', 'attr')):
             return [(st, ('sym', norm(e)))]
         raise AnalysisError('templates: unsupported method call %s in %s' % (norm(e), m.qname))
 
@@ -926,6 +927,12 @@ class TemplateSet:
             r = self.repo.module_binding(self.gen_cls.module, expr.id)
             if r and r[0] == 'var' and isinstance(r[2], ast.Constant):
                 return r[2].value
+            return 'X'        # a local of the emitter method holding some string: sample text
+        if isinstance(expr, ast.Call):
+            try:
+                return self._val(expr, env)
+            except RenderError:
+                return 'X'
         return self._val(expr, env)
 
     def _render_map(self, ms, env, ind, loop):
